@@ -670,3 +670,701 @@ Proof.
         rewrite (V1 j p Hjp). symmetry. apply ref_dict_pos; auto.
       * rewrite (V2 p Hp). symmetry. apply ref_dict_kwo; auto.
 Qed.
+
+(* ---------------------------------------------------------------------------------- *)
+(* CPython side *)
+
+Definition slots_of (i : nat) (f : nat -> name -> option value) (N : list name) : list slot :=
+  map (fun jp => mkSlot (fst jp) (snd jp) (f (fst jp) (snd jp))) (indexed i N).
+
+Lemma slot_eta x : mkSlot (idx x) (nm x) (cur x) = x.
+Proof. destruct x; reflexivity. Qed.
+
+Lemma map_slots_of (g : slot -> slot) i f N :
+  (forall x, idx (g x) = idx x /\ nm (g x) = nm x) ->
+  map g (slots_of i f N) = slots_of i (fun j p => cur (g (mkSlot j p (f j p)))) N.
+Proof.
+  intros Hg. unfold slots_of. rewrite map_map. apply map_ext. intros [j p]. simpl.
+  destruct (Hg (mkSlot j p (f j p))) as [H1 H2]. simpl in H1, H2.
+  rewrite <- (slot_eta (g _)). rewrite H1, H2. reflexivity.
+Qed.
+
+Lemma In_slots_of i f N x :
+  In x (slots_of i f N) <-> exists j p, x = mkSlot j p (f j p) /\ In (j, p) (indexed i N).
+Proof.
+  unfold slots_of. rewrite in_map_iff. split.
+  - intros [[j p] [H1 H2]]. exists j, p. simpl in H1. auto.
+  - intros [j [p [H1 H2]]]. exists (j, p). simpl. auto.
+Qed.
+
+Lemma names_slots_of i f N : map nm (slots_of i f N) = N.
+Proof.
+  unfold slots_of. rewrite map_map. simpl. revert i. induction N; intros i; simpl; auto. rewrite IHN. reflexivity.
+Qed.
+
+Definition hit (np : nat) (k : name) (x : slot) : bool := (np <=? idx x) && (nm x =? k).
+Definition upd1 (np : nat) (k : name) (v : value) (x : slot) : slot :=
+  if hit np k x then mkSlot (idx x) (nm x) (Some v) else x.
+
+Lemma assign_spec np k v sl :
+  NoDup (map nm sl) ->
+  assign np k v sl =
+    if existsb (fun x => hit np k x && is_some (cur x)) sl then AlreadySet
+    else if existsb (hit np k) sl then Assigned (map (upd1 np k v) sl)
+    else NotFound.
+Proof.
+  induction sl as [|x t IH]; intros ND; simpl; auto.
+  inversion ND as [|? ? Hn Hd]; subst.
+  fold (hit np k x). destruct (hit np k x) eqn:Hx; simpl.
+  - assert (Ht : forall y, In y t -> hit np k y = false).
+    { intros y Hy. unfold hit in *. apply andb_prop in Hx. destruct Hx as [_ Hx]. apply Nat.eqb_eq in Hx.
+      destruct (nm y =? k) eqn:E; [|apply andb_false_r]. apply Nat.eqb_eq in E. exfalso. apply Hn.
+      rewrite Hx, <- E. apply in_map. exact Hy. }
+    destruct (cur x) eqn:Ec; simpl; auto.
+    assert (existsb (fun x0 => hit np k x0 && is_some (cur x0)) t = false) as ->.
+    { apply existsb_false. intros y Hy. rewrite (Ht y Hy). reflexivity. }
+    unfold upd1 at 1. rewrite Hx. f_equal. f_equal.
+    rewrite <- (map_id t) at 1. apply map_ext_in. intros y Hy. unfold upd1. rewrite (Ht y Hy). reflexivity.
+  - rewrite IH; auto.
+    destruct (existsb (fun x0 => hit np k x0 && is_some (cur x0)) t); simpl; auto.
+    destruct (existsb (hit np k) t); simpl; auto.
+    unfold upd1 at 2. rewrite Hx. reflexivity.
+Qed.
+
+Lemma hit_upd1 np k k' v x : hit np k' (upd1 np k v x) = hit np k' x.
+Proof. unfold upd1. destruct (hit np k x); reflexivity. Qed.
+
+Lemma names_upd1 np k v sl : map nm (map (upd1 np k v) sl) = map nm sl.
+Proof. rewrite map_map. apply map_ext. intros x. unfold upd1. destruct (hit np k x); reflexivity. Qed.
+
+Definition upd (np : nat) (ks : list name) (x : slot) : slot :=
+  if (np <=? idx x) && mem (nm x) ks then mkSlot (idx x) (nm x) (Some (Kw (nm x))) else x.
+
+Definition loop_bad (s : sig) (sl : list slot) (k : name) : bool :=
+  existsb (fun x => hit (length (posonly s)) k x && is_some (cur x)) sl
+  || (negb (existsb (hit (length (posonly s)) k) sl) && negb (is_some (kwargs s))).
+
+Lemma existsb_ext_in {A} (f g : A -> bool) l : (forall x, In x l -> f x = g x) -> existsb f l = existsb g l.
+Proof. induction l; simpl; intros H; auto. rewrite H, IHl; auto. Qed.
+
+Lemma existsb_map {A B} (f : B -> bool) (g : A -> B) l : existsb f (map g l) = existsb (fun x => f (g x)) l.
+Proof. induction l; simpl; auto. rewrite IHl. reflexivity. Qed.
+
+Lemma kw_loop_spec s all ks :
+  forall sl kwd, NoDup (map nm sl) -> NoDup ks ->
+  (existsb (loop_bad s sl) ks = true -> exists e, kw_loop s all ks sl kwd = inr e) /\
+  (existsb (loop_bad s sl) ks = false ->
+   kw_loop s all ks sl kwd =
+   inl (map (upd (length (posonly s)) ks) sl,
+        kwd ++ filter (fun k => negb (existsb (hit (length (posonly s)) k) sl)) ks)).
+Proof.
+  set (np := length (posonly s)).
+  induction ks as [|k rest IH]; intros sl kwd NS NK.
+  - simpl. split; [discriminate|]. intros _. rewrite app_nil_r. f_equal. f_equal.
+    rewrite <- (map_id sl) at 1. apply map_ext. intros x. unfold upd. simpl. rewrite andb_false_r. reflexivity.
+  - inversion NK as [|? ? Hk Hr]; subst. simpl. fold np.
+    rewrite (assign_spec np k (Kw k) sl NS). unfold loop_bad at 1 3. fold np.
+    destruct (existsb (fun x => hit np k x && is_some (cur x)) sl) eqn:Eb; simpl.
+    { split; [eauto | discriminate]. }
+    destruct (existsb (hit np k) sl) eqn:Ef; simpl.
+    + (* assigned *)
+      set (sl' := map (upd1 np k (Kw k)) sl).
+      assert (NS' : NoDup (map nm sl')) by (unfold sl'; rewrite names_upd1; exact NS).
+      assert (Hbad : existsb (loop_bad s sl') rest = existsb (loop_bad s sl) rest).
+      { apply existsb_ext_in. intros k' Hk'. unfold loop_bad. fold np. unfold sl'. rewrite !existsb_map.
+        f_equal.
+        - apply existsb_ext_in. intros x Hx. rewrite hit_upd1. unfold upd1.
+          destruct (hit np k x) eqn:Hh; auto. unfold hit in *. apply andb_prop in Hh. destruct Hh as [_ Hh].
+          apply Nat.eqb_eq in Hh. assert (nm x =? k' = false) as ->.
+          { apply Nat.eqb_neq. intros E. apply Hk. rewrite <- Hh, E. exact Hk'. }
+          rewrite andb_false_r. reflexivity.
+        - f_equal. f_equal. apply existsb_ext_in. intros x Hx. apply hit_upd1. }
+      destruct (IH sl' kwd NS' Hr) as [IH1 IH2]. rewrite Hbad in IH1, IH2.
+      split; [exact IH1|]. intros Hf. rewrite (IH2 Hf). f_equal. f_equal.
+      * unfold sl'. rewrite map_map. apply map_ext. intros x. unfold upd1, upd. simpl.
+        destruct (hit np k x) eqn:Hh; unfold hit in Hh.
+        -- apply andb_prop in Hh. destruct Hh as [Hh1 Hh2]. apply Nat.eqb_eq in Hh2. simpl.
+           rewrite Hh1. simpl. rewrite Hh2. rewrite Nat.eqb_refl. simpl.
+           assert (mem k rest = false) as -> by (apply mem_nIn; exact Hk). reflexivity.
+        -- destruct (np <=? idx x) eqn:El; simpl; auto. simpl in Hh. rewrite Hh. reflexivity.
+      * f_equal. apply filter_ext_in. intros k' Hk'. unfold sl'. rewrite existsb_map.
+        f_equal. apply existsb_ext_in. intros x Hx. apply hit_upd1.
+    + (* not found *)
+      destruct (kwargs s) eqn:Ekw; simpl.
+      * destruct (IH sl (kwd ++ [k]) NS Hr) as [IH1 IH2].
+        split; [exact IH1|]. intros Hf. rewrite (IH2 Hf). rewrite <- app_assoc. simpl.
+        f_equal. f_equal. apply map_ext_in. intros x Hx. unfold upd. simpl.
+        assert (hit np k x = false) as Hh by (rewrite existsb_false in Ef; apply Ef; auto).
+        unfold hit in Hh. destruct (np <=? idx x); simpl in *; auto. rewrite Hh. reflexivity.
+      * split; [|discriminate]. intros _.
+        destruct ((0 <? np) && nonempty (filter (fun k' => mem k' (posonly s)) all)); eauto.
+Qed.
+
+(* defaults form a suffix of the positional parameters *)
+Lemma defaults_suffix_split D l :
+  defaults_suffix D l = true ->
+  exists l1 l2, l = l1 ++ l2 /\ (forall p, In p l1 -> mem p D = false) /\ (forall p, In p l2 -> mem p D = true).
+Proof.
+  induction l as [|p t IH]; simpl; intros H.
+  - exists [], []. simpl. repeat split; intros ? [].
+  - destruct (mem p D) eqn:E.
+    + exists [], (p :: t). simpl. repeat split; [intros ? []|]. intros q [Hq|Hq]; [subst; auto|].
+      rewrite forallb_forall in H. auto.
+    + destruct (IH H) as [l1 [l2 [H1 [H2 H3]]]]. exists (p :: l1), l2. subst t. simpl. repeat split; auto.
+      intros q [Hq|Hq]; [subst; auto|auto].
+Qed.
+
+Lemma filter_none {A} (f : A -> bool) l : (forall x, In x l -> f x = false) -> filter f l = [].
+Proof. induction l; simpl; intros H; auto. rewrite H; auto. Qed.
+Lemma filter_all {A} (f : A -> bool) l : (forall x, In x l -> f x = true) -> filter f l = l.
+Proof. induction l; simpl; intros H; auto. rewrite H; auto. rewrite IHl; auto. Qed.
+
+Lemma defaults_suffix_index D l j p :
+  defaults_suffix D l = true -> In (j, p) (indexed 0 l) ->
+  let defcount := length (filter (fun q => mem q D) l) in
+  defcount <= length l /\ (j < length l - defcount <-> mem p D = false).
+Proof.
+  intros H Hjp. destruct (defaults_suffix_split D l H) as [l1 [l2 [E [H1 H2]]]]. subst l. cbv zeta.
+  rewrite filter_app, (filter_none _ l1 H1), (filter_all _ l2 H2). simpl. rewrite app_length.
+  split; [lia|]. replace (length l1 + length l2 - length l2) with (length l1) by lia.
+  rewrite indexed_app in Hjp. apply in_app_or in Hjp. destruct Hjp as [Hjp|Hjp]; apply indexed_range in Hjp; simpl in Hjp.
+  - split; intros _; [apply H1; tauto|lia].
+  - split; intros Hc; [lia|]. rewrite H2 in Hc; [discriminate|tauto].
+Qed.
+
+Definition varnames (s : sig) : list name := posonly s ++ pos_or_kw s ++ kwonly s.
+
+Lemma varnames_AK s : varnames s = param_names s ++ kwonly s.
+Proof. unfold varnames, param_names. rewrite app_assoc. reflexivity. Qed.
+
+Lemma found_spec s i f k :
+  i = 0 -> existsb (hit (length (posonly s)) k) (slots_of i f (varnames s)) = mem k (pos_or_kw s ++ kwonly s).
+Proof.
+  intros ->. apply eq_true_iff_eq. rewrite existsb_exists, mem_In. split.
+  - intros [x [Hx Hh]]. apply In_slots_of in Hx. destruct Hx as [j [p [-> Hjp]]].
+    unfold hit in Hh. simpl in Hh. apply andb_prop in Hh. destruct Hh as [H1 H2].
+    apply Nat.leb_le in H1. apply Nat.eqb_eq in H2. subst p.
+    unfold varnames in Hjp. rewrite indexed_app in Hjp. apply in_app_or in Hjp. destruct Hjp as [Hjp|Hjp].
+    + apply indexed_range in Hjp. simpl in Hjp. lia.
+    + apply indexed_range in Hjp. tauto.
+  - intros Hin. destruct (indexed_In (0 + length (posonly s)) _ _ Hin) as [j Hj].
+    exists (mkSlot j k (f j k)). split.
+    + apply In_slots_of. exists j, k. split; auto. unfold varnames. rewrite indexed_app. apply in_or_app. auto.
+    + unfold hit. simpl. apply indexed_range in Hj. rewrite Nat.eqb_refl.
+      assert (length (posonly s) <=? j = true) as -> by (apply Nat.leb_le; lia). reflexivity.
+Qed.
+
+Definition item (x : slot) : dict := match cur x with Some v => [(nm x, v)] | None => [] end.
+
+Lemma dget_flat_slots i f N j p :
+  NoDup N -> In (j, p) (indexed i N) -> dget p (flat_map item (slots_of i f N)) = f j p.
+Proof.
+  unfold slots_of. revert i. induction N as [|a N IH]; intros i ND H; simpl in H; [tauto|].
+  inversion ND as [|? ? Hn Hd]; subst. simpl. rewrite dget_app. destruct H as [H|H].
+  - inversion H; subst. unfold item at 1. simpl. destruct (f j p); simpl.
+    + rewrite Nat.eqb_refl. reflexivity.
+    + apply dget_None. intros Hin. apply Hn. unfold keys in Hin. rewrite in_map_iff in Hin.
+      destruct Hin as [[k v] [Hk Hin]]. simpl in Hk. subst k. rewrite in_flat_map in Hin.
+      destruct Hin as [x [Hx Hi]]. rewrite in_map_iff in Hx. destruct Hx as [[j' p'] [Hx Hjp]]. subst x.
+      unfold item in Hi. simpl in Hi. destruct (f j' p'); simpl in Hi; [|tauto]. destruct Hi as [Hi|[]].
+      inversion Hi; subst. apply indexed_range in Hjp. tauto.
+  - assert (dget p (item (mkSlot i a (f i a))) = None) as ->.
+    { unfold item. simpl. destruct (f i a); simpl; auto.
+      assert (p =? a = false) as ->; auto. apply Nat.eqb_neq. intros ->. apply indexed_range in H. tauto. }
+    apply IH; auto.
+Qed.
+
+Lemma dget_flat_slots_notin i f N p : ~ In p N -> dget p (flat_map item (slots_of i f N)) = None.
+Proof.
+  intros H. apply dget_None. intros Hin. apply H. unfold keys in Hin. rewrite in_map_iff in Hin.
+  destruct Hin as [[k v] [Hk Hin]]. simpl in Hk. subst k. rewrite in_flat_map in Hin.
+  destruct Hin as [x [Hx Hi]]. apply In_slots_of in Hx. destruct Hx as [j [q [-> Hjq]]].
+  unfold item in Hi. simpl in Hi. destruct (f j q); simpl in Hi; [|tauto]. destruct Hi as [Hi|[]].
+  inversion Hi; subst. apply indexed_range in Hjq. tauto.
+Qed.
+
+Definition f0 (s : sig) (c : shape) (j : nat) (p : name) : option value :=
+  if j <? min (npos c) (length (posonly s) + length (pos_or_kw s)) then Some (Pos j) else None.
+
+Definition sl0 (s : sig) (c : shape) : list slot := slots_of 0 (f0 s c) (varnames s).
+
+Lemma len_A s : length (param_names s) = length (posonly s) + length (pos_or_kw s).
+Proof. unfold param_names. apply app_length. Qed.
+
+Lemma indexed_varnames s j p :
+  In (j, p) (indexed 0 (varnames s)) <->
+  In (j, p) (indexed 0 (param_names s)) \/ In (j, p) (indexed (length (param_names s)) (kwonly s)).
+Proof. rewrite varnames_AK, indexed_app, in_app_iff. simpl. tauto. Qed.
+
+Lemma loop_bad_true s c :
+  names_ok s -> existsb (loop_bad s (sl0 s c)) (kws c) = true -> RefErr s c.
+Proof.
+  intros W H. apply existsb_exists in H. destruct H as [k [Hk Hb]]. unfold loop_bad in Hb.
+  apply orb_prop in Hb. destruct Hb as [Hb|Hb].
+  - apply existsb_exists in Hb. destruct Hb as [x [Hx Hh]]. apply In_slots_of in Hx.
+    destruct Hx as [j [p [-> Hjp]]]. apply andb_prop in Hh. destruct Hh as [Hh Hs]. unfold hit in Hh. simpl in Hh, Hs.
+    apply andb_prop in Hh. destruct Hh as [H1 H2]. apply Nat.leb_le in H1. apply Nat.eqb_eq in H2. subst p.
+    unfold f0 in Hs. destruct (j <? min (npos c) (length (posonly s) + length (pos_or_kw s))) eqn:Ej; [|discriminate].
+    apply Nat.ltb_lt in Ej. rewrite <- len_A in Ej.
+    left. exists j, k. repeat split; auto; try lia.
+    apply indexed_varnames in Hjp. destruct Hjp as [Hjp|Hjp]; auto. apply indexed_range in Hjp. lia.
+  - apply andb_prop in Hb. destruct Hb as [Hf Hkw]. right. left. split.
+    + destruct (kwargs s); simpl in Hkw; [discriminate|reflexivity].
+    + exists k. split; auto. apply negb_true_iff in Hf. unfold sl0 in Hf. rewrite found_spec in Hf; auto.
+      apply mem_nIn. exact Hf.
+Qed.
+
+Lemma loop_bad_false s c :
+  names_ok s -> existsb (loop_bad s (sl0 s c)) (kws c) = false ->
+  ~ (exists j p, In (j, p) (indexed 0 (param_names s)) /\ j < npos c /\ length (posonly s) <= j /\ In p (kws c))
+  /\ ~ (kwargs s = None /\ exists k, In k (kws c) /\ ~ In k (pos_or_kw s ++ kwonly s)).
+Proof.
+  intros W H. rewrite existsb_false in H. split.
+  - intros [j [p [Hjp [Hj [Hnp Hk]]]]]. specialize (H p Hk). unfold loop_bad in H. apply orb_false_elim in H.
+    destruct H as [H _]. rewrite existsb_false in H. specialize (H (mkSlot j p (f0 s c j p))).
+    assert (In (mkSlot j p (f0 s c j p)) (sl0 s c)) as Hin.
+    { apply In_slots_of. exists j, p. split; auto. apply indexed_varnames. auto. }
+    specialize (H Hin). unfold hit in H. simpl in H. rewrite Nat.eqb_refl in H.
+    assert (length (posonly s) <=? j = true) as E by (apply Nat.leb_le; exact Hnp). rewrite E in H. simpl in H.
+    unfold f0 in H. apply indexed_range in Hjp. rewrite len_A in Hjp.
+    assert (j <? min (npos c) (length (posonly s) + length (pos_or_kw s)) = true) as E2 by (apply Nat.ltb_lt; lia).
+    rewrite E2 in H. discriminate.
+  - intros [Hkw [k [Hk Hn]]]. specialize (H k Hk). unfold loop_bad in H. apply orb_false_elim in H.
+    destruct H as [_ H]. rewrite Hkw in H. simpl in H. rewrite andb_true_r in H. apply negb_false_iff in H.
+    unfold sl0 in H. rewrite found_spec in H; auto. apply mem_In in H. tauto.
+Qed.
+
+Lemma upd_keeps np ks x : idx (upd np ks x) = idx x /\ nm (upd np ks x) = nm x.
+Proof. unfold upd. destruct ((np <=? idx x) && mem (nm x) ks); simpl; auto. Qed.
+
+Definition fill_pos (n m d : nat) (x : slot) : slot :=
+  if (max n m <=? idx x) && (idx x <? m + d) && negb (is_some (cur x))
+  then mkSlot (idx x) (nm x) (Some Default) else x.
+Definition fill_kw (ca : nat) (x : slot) : slot :=
+  if (ca <=? idx x) && negb (is_some (cur x)) then mkSlot (idx x) (nm x) (Some Default) else x.
+
+Lemma fill_pos_keeps n m d x : idx (fill_pos n m d x) = idx x /\ nm (fill_pos n m d x) = nm x.
+Proof. unfold fill_pos. destruct ((max n m <=? idx x) && (idx x <? m + d) && negb (is_some (cur x))); simpl; auto. Qed.
+Lemma fill_kw_keeps ca x : idx (fill_kw ca x) = idx x /\ nm (fill_kw ca x) = nm x.
+Proof. unfold fill_kw. destruct ((ca <=? idx x) && negb (is_some (cur x))); simpl; auto. Qed.
+
+Lemma id_keeps (x : slot) : idx x = idx x /\ nm x = nm x.
+Proof. auto. Qed.
+
+Definition f1 (s : sig) (c : shape) (j : nat) (p : name) : option value :=
+  cur (upd (length (posonly s)) (kws c) (mkSlot j p (f0 s c j p))).
+
+Lemma f1_eq s c j p :
+  f1 s c j p = if (length (posonly s) <=? j) && mem p (kws c) then Some (Kw p) else f0 s c j p.
+Proof. unfold f1, upd. simpl. destruct ((length (posonly s) <=? j) && mem p (kws c)); reflexivity. Qed.
+
+Lemma nd_varnames s : names_ok s -> NoDup (varnames s).
+Proof.
+  intros W. rewrite varnames_AK.
+  pose proof (nd_A s W). pose proof (nd_K s W). pose proof (nd_AK s W).
+  clear - H H0 H1. induction (param_names s) as [|a l IH]; simpl; auto.
+  inversion H as [|? ? Hn Hd]; subst. constructor.
+  - rewrite in_app_iff. intros [Hi|Hi]; [tauto|]. apply (H1 a); simpl; auto.
+  - apply IH; auto. intros p Hp. apply H1. simpl. auto.
+Qed.
+
+Lemma kw_loop_result s c :
+  names_ok s -> NoDup (kws c) ->
+  match kw_loop s (kws c) (kws c) (sl0 s c) [] with
+  | inr _ => RefErr s c
+  | inl (sl1, kwdict) =>
+      sl1 = slots_of 0 (f1 s c) (varnames s)
+      /\ kwdict = filter (fun k => negb (mem k (pos_or_kw s ++ kwonly s))) (kws c)
+      /\ ~ (exists j p, In (j, p) (indexed 0 (param_names s)) /\ j < npos c /\ length (posonly s) <= j /\ In p (kws c))
+      /\ ~ (kwargs s = None /\ exists k, In k (kws c) /\ ~ In k (pos_or_kw s ++ kwonly s))
+  end.
+Proof.
+  intros W NK.
+  assert (NS : NoDup (map nm (sl0 s c))) by (unfold sl0; rewrite names_slots_of; apply nd_varnames; exact W).
+  destruct (kw_loop_spec s (kws c) (kws c) (sl0 s c) [] NS NK) as [KL1 KL2].
+  destruct (existsb (loop_bad s (sl0 s c)) (kws c)) eqn:EL.
+  - destruct (KL1 eq_refl) as [e He]. rewrite He. apply loop_bad_true; auto.
+  - rewrite (KL2 eq_refl). destruct (loop_bad_false s c W EL) as [N1 N2]. repeat split; auto.
+    + unfold sl0. rewrite (map_slots_of _ 0 (f0 s c) (varnames s) (upd_keeps _ _)). reflexivity.
+    + simpl. apply filter_ext. intros k. unfold sl0. rewrite found_spec; auto.
+Qed.
+
+Lemma bind_c_unfold s c :
+  bind_c s c =
+  match kw_loop s (kws c) (kws c) (sl0 s c) [] with
+  | inr e => Err e
+  | inl (sl1, kwdict) =>
+    let ca := length (posonly s) + length (pos_or_kw s) in
+    let n := min (npos c) ca in
+    if (ca <? npos c) && negb (is_some (varargs s)) then Err CTooManyPositional else
+    let defcount := length (filter (fun p => mem p (defaults s)) (posonly s ++ pos_or_kw s)) in
+    let m := ca - defcount in
+    let missing :=
+      if npos c <? ca
+      then map nm (filter (fun x => (npos c <=? idx x) && (idx x <? m) && negb (is_some (cur x))) sl1)
+      else [] in
+    if nonempty missing then Err (CMissingPositional missing) else
+    let sl2 := if npos c <? ca then map (fill_pos n m defcount) sl1 else sl1 in
+    let missing_kw :=
+      map nm (filter (fun x => (ca <=? idx x) && negb (is_some (cur x)) && negb (mem (nm x) (defaults s))) sl2) in
+    if nonempty missing_kw then Err (CMissingKwonly missing_kw) else
+    Ok (flat_map item (map (fill_kw ca) sl2)
+        ++ map (fun va => (va, VarArgs (seq n (npos c - n)))) (opt_list (varargs s))
+        ++ map (fun kn => (kn, KwArgs kwdict)) (opt_list (kwargs s)))
+  end.
+Proof. reflexivity. Qed.
+
+Lemma seq_min n ca : seq (min n ca) (n - min n ca) = seq ca (n - ca).
+Proof.
+  destruct (Nat.le_gt_cases n ca) as [H|H].
+  - rewrite Nat.min_l by lia. replace (n - n) with 0 by lia. replace (n - ca) with 0 by lia. reflexivity.
+  - rewrite Nat.min_r by lia. reflexivity.
+Qed.
+
+Theorem c_ref s c :
+  wf_sig s -> wf_shape c ->
+  match bind_c s c with
+  | Err _ => RefErr s c
+  | Ok d => ~ RefErr s c /\ forall p, In p (all_names s) -> dget p d = dget p (ref_dict s c)
+  end.
+Proof.
+  intros [WN WD] NK. unfold wf_shape in NK. pose proof (wf_names s WN) as W.
+  rewrite bind_c_unfold. pose proof (kw_loop_result s c W NK) as KL.
+  destruct (kw_loop s (kws c) (kws c) (sl0 s c) []) as [[sl1 kwdict]|e]; [|exact KL].
+  destruct KL as [-> [-> [N1 N2]]]. cbv zeta.
+  fold (param_names s). rewrite <- (len_A s).
+  set (ca := length (param_names s)).
+  set (dc := length (filter (fun p => mem p (defaults s)) (param_names s))).
+  set (m := ca - dc). set (n := min (npos c) ca). set (np := length (posonly s)).
+  assert (Hnp : np <= ca) by (unfold np, ca; rewrite len_A; lia).
+  assert (SUF : forall j p, In (j, p) (indexed 0 (param_names s)) ->
+                dc <= ca /\ (j < m <-> mem p (defaults s) = false) /\ j < ca).
+  { intros j p Hjp. destruct (defaults_suffix_index _ _ j p WD Hjp) as [H1 H2]. fold dc ca m in H1, H2.
+    apply indexed_range in Hjp. fold ca in Hjp. repeat split; try tauto; lia. }
+  assert (KIDX : forall j p, In (j, p) (indexed ca (kwonly s)) -> ca <= j /\ In p (kwonly s))
+    by (intros j p H; apply indexed_range in H; split; [lia|tauto]).
+  assert (F0hi : forall j p, ca <= j -> f0 s c j p = None).
+  { intros j p Hj. unfold f0. rewrite <- len_A. fold ca.
+    assert (j <? min (npos c) ca = false) as -> by (apply Nat.ltb_ge; lia). reflexivity. }
+  (* 3. too many positional arguments *)
+  destruct ((ca <? npos c) && negb (is_some (varargs s))) eqn:E3.
+  { apply andb_prop in E3. destruct E3 as [E3 E3v]. apply Nat.ltb_lt in E3. right. right. left. split; auto.
+    destruct (varargs s); simpl in E3v; [discriminate|reflexivity]. }
+  assert (N3 : ~ (ca < npos c /\ varargs s = None)).
+  { intros [H1 H2]. rewrite H2 in E3. simpl in E3. rewrite andb_true_r in E3. apply Nat.ltb_ge in E3. lia. }
+  (* 4. missing positional arguments *)
+  destruct (nonempty (if npos c <? ca
+                      then map nm (filter (fun x => (npos c <=? idx x) && (idx x <? m) && negb (is_some (cur x)))
+                                          (slots_of 0 (f1 s c) (varnames s)))
+                      else [])) eqn:E4.
+  { destruct (npos c <? ca) eqn:G; [|discriminate]. rewrite nonempty_map, nonempty_filter in E4.
+    apply existsb_exists in E4. destruct E4 as [x [Hx Hp]]. apply In_slots_of in Hx. destruct Hx as [j [p [-> Hjp]]].
+    simpl in Hp. apply andb_prop in Hp. destruct Hp as [Hp Hc]. apply andb_prop in Hp. destruct Hp as [Hp1 Hp2].
+    apply Nat.leb_le in Hp1. apply Nat.ltb_lt in Hp2. apply negb_true_iff in Hc.
+    apply indexed_varnames in Hjp. destruct Hjp as [Hjp|Hjp]; [|apply KIDX in Hjp; unfold m in Hp2; lia].
+    destruct (SUF j p Hjp) as [S1 [S2 S3]].
+    right. right. right. left. exists j, p. repeat split; auto.
+    - intros [Hl Hk]. rewrite f1_eq in Hc. apply Nat.leb_le in Hl. apply mem_In in Hk. fold np in Hl.
+      unfold np in Hl. rewrite Hl, Hk in Hc. discriminate.
+    - apply mem_nIn. apply S2. exact Hp2. }
+  assert (N4 : ~ (exists j p, In (j, p) (indexed 0 (param_names s)) /\ npos c <= j
+                  /\ ~ (length (posonly s) <= j /\ In p (kws c)) /\ ~ In p (defaults s))).
+  { intros [j [p [Hjp [Hj [Hnk Hd]]]]]. destruct (SUF j p Hjp) as [S1 [S2 S3]].
+    assert (npos c <? ca = true) as G by (apply Nat.ltb_lt; lia). rewrite G in E4.
+    rewrite nonempty_map, nonempty_filter in E4. rewrite existsb_false in E4.
+    specialize (E4 (mkSlot j p (f1 s c j p))).
+    assert (In (mkSlot j p (f1 s c j p)) (slots_of 0 (f1 s c) (varnames s))) as Hin.
+    { apply In_slots_of. exists j, p. split; auto. apply indexed_varnames. auto. }
+    specialize (E4 Hin). simpl in E4.
+    assert (npos c <=? j = true) as X1 by (apply Nat.leb_le; lia).
+    assert (j <? m = true) as X2 by (apply Nat.ltb_lt; apply S2; apply mem_nIn; exact Hd).
+    rewrite X1, X2 in E4. simpl in E4.
+    rewrite f1_eq in E4.
+    destruct ((length (posonly s) <=? j) && mem p (kws c)) eqn:Ek.
+    { apply andb_prop in Ek. destruct Ek as [Ek1 Ek2]. apply Nat.leb_le in Ek1. apply mem_In in Ek2. tauto. }
+    unfold f0 in E4. rewrite <- len_A in E4. fold ca in E4.
+    assert (j <? min (npos c) ca = false) as Ej by (apply Nat.ltb_ge; lia). rewrite Ej in E4. discriminate. }
+  (* the slots after the positional defaults *)
+  set (f2 := fun j p => if npos c <? ca then cur (fill_pos n m dc (mkSlot j p (f1 s c j p))) else f1 s c j p).
+  assert (SL2 : (if npos c <? ca then map (fill_pos n m dc) (slots_of 0 (f1 s c) (varnames s))
+                 else slots_of 0 (f1 s c) (varnames s)) = slots_of 0 f2 (varnames s)).
+  { unfold f2. destruct (npos c <? ca).
+    - apply map_slots_of. intros x. apply fill_pos_keeps.
+    - reflexivity. }
+  rewrite SL2.
+  assert (F2hi : forall j p, ca <= j -> f2 j p = if mem p (kws c) then Some (Kw p) else None).
+  { intros j p Hj. unfold f2.
+    assert (f1 s c j p = if mem p (kws c) then Some (Kw p) else None) as E.
+    { rewrite f1_eq. fold np. assert (np <=? j = true) as -> by (apply Nat.leb_le; lia). simpl.
+      rewrite F0hi; auto. }
+    destruct (npos c <? ca); auto. unfold fill_pos. simpl.
+    assert (j <? m + dc = false) as ->.
+    { apply Nat.ltb_ge. unfold m. assert (dc <= ca); [|lia]. unfold dc, ca. clear.
+      induction (param_names s); simpl; auto. destruct (mem a (defaults s)); simpl; lia. }
+    rewrite andb_false_r. simpl. exact E. }
+  assert (F2lo : forall j p, In (j, p) (indexed 0 (param_names s)) -> f2 j p = Some (ref_val_pos s c j p)).
+  { intros j p Hjp. destruct (SUF j p Hjp) as [S1 [S2 S3]]. unfold f2, ref_val_pos. fold np.
+    destruct (j <? npos c) eqn:Ej.
+    - apply Nat.ltb_lt in Ej.
+      assert (f1 s c j p = Some (Pos j)) as E.
+      { rewrite f1_eq. fold np. destruct ((np <=? j) && mem p (kws c)) eqn:Ek.
+        - exfalso. apply N1. exists j, p. apply andb_prop in Ek. destruct Ek as [Ek1 Ek2].
+          apply Nat.leb_le in Ek1. apply mem_In in Ek2. auto.
+        - unfold f0. rewrite <- len_A. fold ca.
+          assert (j <? min (npos c) ca = true) as -> by (apply Nat.ltb_lt; lia). reflexivity. }
+      rewrite E. destruct (npos c <? ca); auto. unfold fill_pos. simpl. rewrite andb_false_r. reflexivity.
+    - apply Nat.ltb_ge in Ej. assert (npos c <? ca = true) as -> by (apply Nat.ltb_lt; lia).
+      rewrite f1_eq. fold np. destruct ((np <=? j) && mem p (kws c)) eqn:Ek.
+      + unfold fill_pos. simpl. rewrite andb_false_r. reflexivity.
+      + unfold f0. rewrite <- len_A. fold ca.
+        assert (j <? min (npos c) ca = false) as -> by (apply Nat.ltb_ge; lia).
+        unfold fill_pos. simpl.
+        assert (mem p (defaults s) = true) as Hd.
+        { destruct (mem p (defaults s)) eqn:Ed; auto. exfalso. apply N4. exists j, p. repeat split; auto.
+          - intros [Hl Hk]. apply Nat.leb_le in Hl. apply mem_In in Hk. fold np in Hl. rewrite Hl, Hk in Ek. discriminate.
+          - apply mem_nIn. exact Ed. }
+        assert (~ j < m) as Hm by (intros Hlt; apply S2 in Hlt; congruence).
+        assert (max n m <=? j = true) as -> by (apply Nat.leb_le; unfold n; lia).
+        assert (j <? m + dc = true) as -> by (apply Nat.ltb_lt; unfold m; lia).
+        reflexivity. }
+  (* 5. missing keyword-only arguments *)
+  rewrite nonempty_map, nonempty_filter.
+  destruct (existsb (fun x => (ca <=? idx x) && negb (is_some (cur x)) && negb (mem (nm x) (defaults s)))
+                    (slots_of 0 f2 (varnames s))) eqn:E5.
+  { apply existsb_exists in E5. destruct E5 as [x [Hx Hp]]. apply In_slots_of in Hx. destruct Hx as [j [p [-> Hjp]]].
+    simpl in Hp. apply andb_prop in Hp. destruct Hp as [Hp Hd]. apply andb_prop in Hp. destruct Hp as [Hp1 Hp2].
+    apply Nat.leb_le in Hp1. apply negb_true_iff in Hp2, Hd.
+    apply indexed_varnames in Hjp. destruct Hjp as [Hjp|Hjp]; [destruct (SUF j p Hjp); lia|].
+    apply KIDX in Hjp. destruct Hjp as [_ HpK]. rewrite F2hi in Hp2; auto.
+    right. right. right. right. exists p. destruct (mem p (kws c)) eqn:Ek; [discriminate|].
+    apply mem_nIn in Ek, Hd. auto. }
+  assert (N5 : ~ (exists p, In p (kwonly s) /\ ~ In p (kws c) /\ ~ In p (defaults s))).
+  { intros [p [HpK [Hk Hd]]]. destruct (indexed_In ca _ _ HpK) as [j Hjp].
+    rewrite existsb_false in E5. specialize (E5 (mkSlot j p (f2 j p))).
+    assert (In (mkSlot j p (f2 j p)) (slots_of 0 f2 (varnames s))) as Hin.
+    { apply In_slots_of. exists j, p. split; auto. apply indexed_varnames. auto. }
+    specialize (E5 Hin). simpl in E5. destruct (KIDX j p Hjp) as [Hj _].
+    assert (ca <=? j = true) as X1 by (apply Nat.leb_le; lia). rewrite X1 in E5. rewrite F2hi in E5; auto.
+    apply mem_nIn in Hk, Hd. rewrite Hk, Hd in E5. discriminate. }
+  (* Ok *)
+  split.
+  { unfold RefErr. fold ca. intros [H|[H|[H|[H|H]]]]; auto. }
+  rewrite (map_slots_of (fill_kw ca) 0 f2 (varnames s) (fill_kw_keeps ca)).
+  set (f3 := fun j p => cur (fill_kw ca (mkSlot j p (f2 j p)))).
+  pose proof (nd_varnames s W) as NV.
+  intros p Hp. apply all_names_cases in Hp. destruct Hp as [Hp|[Hp|[Hp|Hp]]].
+  - destruct (In_A_indexed s p Hp) as [j [Hjp Hj]]. fold ca in Hj.
+    rewrite dget_app. rewrite (dget_flat_slots 0 f3 _ j p NV) by (apply indexed_varnames; auto).
+    rewrite (ref_dict_pos s c j p W Hjp). unfold f3, fill_kw. simpl.
+    assert (ca <=? j = false) as -> by (apply Nat.leb_gt; lia). simpl. rewrite (F2lo j p Hjp). reflexivity.
+  - destruct (indexed_In ca _ _ Hp) as [j Hjp]. destruct (KIDX j p Hjp) as [Hj _].
+    rewrite dget_app. rewrite (dget_flat_slots 0 f3 _ j p NV) by (apply indexed_varnames; auto).
+    rewrite (ref_dict_kwo s c p W Hp). unfold f3, fill_kw, ref_val_kwo. simpl.
+    assert (ca <=? j = true) as -> by (apply Nat.leb_le; lia). rewrite F2hi; auto.
+    destruct (mem p (kws c)); reflexivity.
+  - destruct (nd_va s W p Hp) as [H1 H2].
+    rewrite dget_app. rewrite dget_flat_slots_notin.
+    2:{ rewrite varnames_AK, in_app_iff. tauto. }
+    rewrite Hp. simpl. rewrite Nat.eqb_refl. rewrite (ref_dict_va s c p W Hp). unfold ref_star. fold ca.
+    unfold n. rewrite seq_min. reflexivity.
+  - destruct (nd_kn s W p Hp) as [H1 [H2 H3]].
+    rewrite dget_app. rewrite dget_flat_slots_notin.
+    2:{ rewrite varnames_AK, in_app_iff. tauto. }
+    rewrite dget_app. rewrite Hp. rewrite (ref_dict_kn s c p W Hp). unfold ref_starstar.
+    destruct (varargs s) as [va|] eqn:Ev; simpl.
+    + assert (p =? va = false) as -> by (apply Nat.eqb_neq; intros ->; apply H3; reflexivity).
+      rewrite Nat.eqb_refl. reflexivity.
+    + rewrite Nat.eqb_refl. reflexivity.
+Qed.
+
+(* ---------------------------------------------------------------------------------- *)
+(* the property *)
+
+Lemma ref_dict_total s c p : names_ok s -> In p (all_names s) -> dget p (ref_dict s c) <> None.
+Proof.
+  intros W Hp. apply all_names_cases in Hp. destruct Hp as [Hp|[Hp|[Hp|Hp]]].
+  - destruct (In_A_indexed s p Hp) as [j [Hjp _]]. rewrite (ref_dict_pos s c j p W Hjp). discriminate.
+  - rewrite (ref_dict_kwo s c p W Hp). discriminate.
+  - rewrite (ref_dict_va s c p W Hp). discriminate.
+  - rewrite (ref_dict_kn s c p W Hp). discriminate.
+Qed.
+
+Lemma bind_agree_fixed_lemma :
+  forall s c, wf_sig s -> wf_shape c -> agree s (bind_py_fixed s c) (bind_c s c).
+Proof.
+  intros s c WS WC. pose proof (py_ref s c WS WC) as HP. pose proof (c_ref s c WS WC) as HC.
+  pose proof (wf_names s (proj1 WS)) as W.
+  destruct (bind_py_fixed s c) as [d1|e1], (bind_c s c) as [d2|e2]; simpl; auto.
+  - destruct HP as [_ HP], HC as [_ HC]. intros p Hp. rewrite (HP p Hp), (HC p Hp). split; auto.
+    apply ref_dict_total; auto.
+  - destruct HP as [HP _]. auto.
+  - destruct HC as [HC _]. auto.
+Qed.
+
+(* where the code as it stands coincides with the repaired one *)
+Lemma bind_py_eq_fixed s c :
+  wf_shape c ->
+  (kwargs s = None \/ forall k, In k (kws c) -> ~ In k (posonly s)) ->
+  bind_py s c = bind_py_fixed s c.
+Proof.
+  intros NK H. unfold wf_shape in NK. unfold bind_py, bind_py_fixed, bind_py_gen.
+  rewrite (dict_of_id (map (fun k => (k, Kw k)) (kws c))) by (apply (eq_ind_r (@NoDup name) NK (keys_kwsd c))).
+  fold (kwsd c). rewrite keys_kwsd.
+  destruct (existsb (fun k => mem k (posonly s)) (kws c)) eqn:EP.
+  - (* some keyword names a positional-only parameter: then there is no **kwargs, and both raise *)
+    destruct H as [H|H].
+    2:{ apply existsb_exists in EP. destruct EP as [k [Hk Hm]]. apply mem_In in Hm. exfalso. eapply H; eauto. }
+    rewrite H. simpl. rewrite !nonempty_filter, EP. simpl.
+    reflexivity.
+  - rewrite existsb_false in EP.
+    assert (filter (fun kv => negb (mem (fst kv) (posonly s))) (kwsd c) = kwsd c) as ->.
+    { apply filter_all. intros [k v] Hin. simpl. unfold kwsd in Hin. apply in_map_iff in Hin.
+      destruct Hin as [k' [E Hk']]. inversion E; subst. rewrite (EP k Hk'). reflexivity. }
+    assert (filter (fun k => negb (mem k (param_names s ++ kwonly s))) (kws c)
+            = filter (fun k => negb (mem k (pos_or_kw s ++ kwonly s))) (kws c)) as E.
+    { apply filter_ext_in. intros k Hk. unfold param_names. rewrite <- app_assoc, (mem_app k (posonly s)).
+      rewrite (EP k Hk). reflexivity. }
+    destruct (kwargs s); rewrite ?E; reflexivity.
+Qed.
+
+Lemma bind_agree_partial_lemma :
+  forall s c, wf_sig s -> wf_shape c ->
+  (kwargs s = None \/ forall k, In k (kws c) -> ~ In k (posonly s)) ->
+  agree s (bind_py s c) (bind_c s c).
+Proof. intros s c WS WC H. rewrite (bind_py_eq_fixed s c WC H). apply bind_agree_fixed_lemma; auto. Qed.
+
+(* outside that boundary the code as it stands disagrees with CPython on every call it accepts *)
+Lemma bind_py_ok_kwargs s c kn d :
+  kwargs s = Some kn -> bind_py s c = Ok d ->
+  dget kn d = Some (KwArgs (filter (fun k => negb (mem k (param_names s ++ kwonly s))) (kws c))).
+Proof.
+  intros Hkn. unfold bind_py, bind_py_gen. rewrite Hkn.
+  destruct (nonempty _); [discriminate|]. destruct (nonempty _ && _); [discriminate|].
+  destruct (nonempty _ && _); [discriminate|]. destruct (find _ _); [discriminate|].
+  destruct (varargs s).
+  - intros E. inversion E; subst. rewrite dget_dset, Nat.eqb_refl. reflexivity.
+  - destruct (_ <? _); [discriminate|]. intros E. inversion E; subst. rewrite dget_dset, Nat.eqb_refl. reflexivity.
+Qed.
+
+Lemma bind_disagree_exact_lemma :
+  forall s c d, wf_sig s -> wf_shape c ->
+  kwargs s <> None -> (exists k, In k (kws c) /\ In k (posonly s)) ->
+  bind_py s c = Ok d -> ~ agree s (bind_py s c) (bind_c s c).
+Proof.
+  intros s c d WS WC Hkw [k [Hk HkP]] Hok Hag. pose proof (wf_names s (proj1 WS)) as W.
+  destruct (kwargs s) as [kn|] eqn:Ekn; [|congruence].
+  pose proof (bind_py_ok_kwargs s c kn d Ekn Hok) as Hd. rewrite Hok in Hag.
+  pose proof (c_ref s c WS WC) as HC. destruct (bind_c s c) as [d2|e2]; simpl in Hag; [|exact Hag].
+  destruct HC as [_ HC].
+  assert (In kn (all_names s)) as Hin.
+  { unfold all_names. rewrite Ekn. rewrite !in_app_iff. simpl. tauto. }
+  destruct (Hag kn Hin) as [Heq _]. rewrite (HC kn Hin), (ref_dict_kn s c kn W Ekn), Hd in Heq.
+  unfold ref_starstar in Heq. inversion Heq as [Hf].
+  assert (In k (filter (fun k0 => negb (mem k0 (pos_or_kw s ++ kwonly s))) (kws c))) as Hr.
+  { apply filter_In. split; auto. apply negb_true_iff. apply mem_nIn. intros Hi. apply in_app_or in Hi.
+    destruct Hi as [Hi|Hi]; [eapply nd_PQ; eauto | eapply nd_AK; eauto; apply In_posonly_A; auto]. }
+  rewrite <- Hf in Hr. apply filter_In in Hr. destruct Hr as [_ Hr]. apply negb_true_iff in Hr. apply mem_nIn in Hr.
+  apply Hr. apply in_or_app. left. apply In_posonly_A. exact HkP.
+Qed.
+
+(* witnesses: def f(x, /, **kw)  with  f(x=..)  and  f(a0, x=..) *)
+Definition sig_posonly_kwargs : sig := mkSig [0] [] [] [] None (Some 1).
+
+Lemma wf_sig_posonly_kwargs : wf_sig sig_posonly_kwargs.
+Proof. split; [|reflexivity]. repeat constructor; simpl; intuition discriminate. Qed.
+
+Lemma bind_agree_refuted_lemma :
+  exists s c, wf_sig s /\ wf_shape c /\ is_err (bind_py s c) = false /\ is_err (bind_c s c) = true
+              /\ ~ agree s (bind_py s c) (bind_c s c).
+Proof.
+  exists sig_posonly_kwargs, (mkShape 0 [0]). split; [exact wf_sig_posonly_kwargs|]. split; [|split; [|split]].
+  - repeat constructor; simpl; intuition.
+  - reflexivity.
+  - reflexivity.
+  - vm_compute. exact (fun H => H).
+Qed.
+
+Lemma bind_agree_refuted_binding_lemma :
+  exists s c, wf_sig s /\ wf_shape c /\ is_err (bind_py s c) = false /\ is_err (bind_c s c) = false
+              /\ lookup_all s (bind_py s c) = Some [Some (Kw 0); Some (KwArgs [])]
+              /\ lookup_all s (bind_c s c) = Some [Some (Pos 0); Some (KwArgs [0])]
+              /\ ~ agree s (bind_py s c) (bind_c s c).
+Proof.
+  exists sig_posonly_kwargs, (mkShape 1 [0]). split; [exact wf_sig_posonly_kwargs|]. split; [|repeat split].
+  - repeat constructor; simpl; intuition.
+  - vm_compute. intros H. destruct (H 0 (or_introl eq_refl)) as [H1 _]. discriminate H1.
+Qed.
+
+(* the code as it stands is the more lenient of the two: whenever it raises, so does the repaired one *)
+Lemma bind_py_err_fixed_err s c :
+  wf_shape c -> is_err (bind_py s c) = true -> is_err (bind_py_fixed s c) = true.
+Proof.
+  intros NK. unfold wf_shape in NK. unfold bind_py, bind_py_fixed, bind_py_gen.
+  rewrite (dict_of_id (map (fun k => (k, Kw k)) (kws c))) by (apply (eq_ind_r (@NoDup name) NK (keys_kwsd c))).
+  fold (kwsd c).
+  destruct (nonempty _); [reflexivity|]. destruct (nonempty _ && _); [reflexivity|].
+  destruct (nonempty _ && _); [reflexivity|].
+  set (X := dupdate (dict_of (map (fun n => (n, Default)) (defaults s)))
+                    (dict_of (combine (param_names s) (map Pos (seq 0 (npos c)))))).
+  set (L := filter (fun n => negb (mem n (defaults s))) (param_names s) ++ kwonly s).
+  assert (MONO : forall key, dmem key (dupdate X (filter (fun kv => negb (mem (fst kv) (posonly s))) (kwsd c))) = true ->
+                             dmem key (dupdate X (kwsd c)) = true).
+  { intros key. unfold dmem. rewrite !dget_dupdate.
+    2:{ rewrite keys_kwsd. exact NK. }
+    2:{ unfold kwsd. rewrite (keys_filter_map (fun k => negb (mem k (posonly s))) Kw). apply NoDup_filter. exact NK. }
+    unfold kwsd. rewrite (dget_filter_map (fun k => negb (mem k (posonly s))) Kw), dget_map_self.
+    destruct (mem key (kws c)); simpl; auto. }
+  destruct (find (fun key => negb (dmem key (dupdate X (kwsd c)))) L) as [key|] eqn:EU.
+  - intros _. apply find_some in EU. destruct EU as [Hin Hm]. apply negb_true_iff in Hm.
+    destruct (find (fun key => negb (dmem key (dupdate X (filter (fun kv => negb (mem (fst kv) (posonly s))) (kwsd c))))) L)
+      as [key'|] eqn:EF; [reflexivity|].
+    pose proof (find_none _ _ EF key Hin) as Hf. apply negb_false_iff in Hf. apply MONO in Hf. congruence.
+  - destruct (find (fun key => negb (dmem key (dupdate X (filter (fun kv => negb (mem (fst kv) (posonly s))) (kwsd c))))) L);
+      [reflexivity|].
+    destruct (varargs s).
+    + destruct (kwargs s); simpl; discriminate.
+    + destruct (_ <? _); [reflexivity|]. destruct (kwargs s); simpl; discriminate.
+Qed.
+
+Lemma bind_agree_boundary_lemma :
+  forall s c, wf_sig s -> wf_shape c ->
+  (agree s (bind_py s c) (bind_c s c) <->
+   (kwargs s = None \/ (forall k, In k (kws c) -> ~ In k (posonly s)) \/ is_err (bind_py s c) = true)).
+Proof.
+  intros s c WS WC. split.
+  - intros Hag. destruct (kwargs s) as [kn|] eqn:Ekn; [|auto]. right.
+    destruct (existsb (fun k => mem k (posonly s)) (kws c)) eqn:EP.
+    + right. destruct (bind_py s c) as [d|e] eqn:Eb; [|reflexivity]. exfalso.
+      apply existsb_exists in EP. destruct EP as [k [Hk Hm]]. apply mem_In in Hm.
+      apply (bind_disagree_exact_lemma s c d WS WC); try congruence; eauto.
+    + left. rewrite existsb_false in EP. intros k Hk. apply mem_nIn. auto.
+  - intros [H|[H|H]].
+    + apply bind_agree_partial_lemma; auto.
+    + apply bind_agree_partial_lemma; auto.
+    + pose proof (bind_py_err_fixed_err s c WC H) as HF.
+      pose proof (bind_agree_fixed_lemma s c WS WC) as Hag.
+      destruct (bind_py s c); [discriminate|]. destruct (bind_py_fixed s c); [discriminate|].
+      destruct (bind_c s c); simpl in *; auto.
+Qed.
+
+(* every error the code as it stands reports is a CPython TypeError *)
+Lemma bind_err_sound_lemma :
+  forall s c, wf_sig s -> wf_shape c -> is_err (bind_py s c) = true -> is_err (bind_c s c) = true.
+Proof.
+  intros s c WS WC H. pose proof (bind_py_err_fixed_err s c WC H) as HF.
+  pose proof (bind_agree_fixed_lemma s c WS WC) as Hag.
+  destruct (bind_py_fixed s c); [discriminate|]. destruct (bind_c s c); simpl in *; [contradiction|reflexivity].
+Qed.
+
+(* the boolean checks the harness monitors imply the hypotheses of the theorems *)
+Lemma nodupb_NoDup l : nodupb l = true -> NoDup l.
+Proof.
+  induction l; simpl; intros H; [constructor|]. apply andb_prop in H. destruct H as [H1 H2].
+  constructor; auto. apply negb_true_iff in H1. apply mem_nIn. exact H1.
+Qed.
+
+Lemma wf_sigb_sound s : wf_sigb s = true -> wf_sig s.
+Proof. unfold wf_sigb, wf_sig. intros H. apply andb_prop in H. destruct H. split; auto. apply nodupb_NoDup; auto. Qed.
+
+Lemma wf_shapeb_sound c : nodupb (kws c) = true -> wf_shape c.
+Proof. apply nodupb_NoDup. Qed.
